@@ -600,6 +600,165 @@ func checkC16(p *Prog, r *Report) {
 		})
 		r.Check(ok && val, "NominationSetter.AddTo", p.Pos(f.Body.Pos()), "forwards its Value and AttrType", "setter does not forward its own Value/AttrType to the attribute encoder")
 	}
+
+	// ---- R16.3 the address text travels verbatim ------------------------------------------
+	r.Rule("R16.3", "Between Candidate.Address() and the wire the connection-address text passes only through substring operations (the zone cut) on both the Marshal and the Unmarshal path, never through a parse/format cycle that could re-render it: equality compares Address() as text, so a re-rendered literal breaks the round trip.", 3)
+	if f := p.Fn("candidateBase.Marshal"); r.Anchor("candidateBase.Marshal", f != nil) {
+		n := 0
+		for _, c := range p.CallsTo(f, false, "fmt.Sprintf") {
+			for _, a := range c.Args[1:] {
+				if !p.mentionsCall(a, "ice.candidateBase.Address") && !p.mentionsCall(a, "ice.Candidate.Address") {
+					continue
+				}
+				n++
+				ok, why := p.verbatimText(f, a, func(e ast.Expr) bool {
+					ce, isC := unparen(e).(*ast.CallExpr)
+					return isC && strings.HasSuffix(p.CalleeName(ce), ".Address") && len(ce.Args) == 0
+				}, 0)
+				r.Check(ok, "Marshal writes the address text verbatim", p.Pos(a.Pos()), "Address() through substring operations only", "the address written to the wire is "+why+": a valid but differently spelled literal does not survive Marshal/Unmarshal")
+			}
+		}
+		if n == 0 {
+			r.Fail("Marshal writes the address text verbatim", p.Pos(f.Body.Pos()), "the address argument of the candidate line was not found")
+		}
+	}
+	if f := p.Fn("UnmarshalCandidate"); r.Anchor("UnmarshalCandidate", f != nil) {
+		// the variable holding the connection-address token
+		var obj types.Object
+		walkBody(f, func(n ast.Node) bool {
+			cl, ok := n.(*ast.CompositeLit)
+			if !ok {
+				return true
+			}
+			st, _ := derefStruct(p.TypeOf(cl))
+			if st == nil {
+				return true
+			}
+			for i, el := range cl.Elts {
+				val := el
+				name := ""
+				if kv, ok := el.(*ast.KeyValueExpr); ok {
+					val = kv.Value
+					if id, ok := kv.Key.(*ast.Ident); ok {
+						name = id.Name
+					}
+				} else if i < st.NumFields() {
+					name = st.Field(i).Name()
+				}
+				if name == "Address" {
+					if v, ok := unparen(val).(*ast.Ident); ok && obj == nil {
+						obj = p.ObjOf(v)
+					}
+				}
+			}
+			return true
+		})
+		if r.Check(obj != nil, "UnmarshalCandidate: address variable", p.Pos(f.Body.Pos()), "Address: <var>", "the parsed address does not reach the constructors through a variable") {
+			okAll, why, n := true, "", 0
+			for _, d := range p.DefsOf(f, obj) {
+				if d.Rhs == nil {
+					continue
+				}
+				n++
+				if d.Index == 0 {
+					if c, isC := unparen(d.Rhs).(*ast.CallExpr); isC && p.CalleeName(c) == "ice.readCandidateStringToken" {
+						continue // the token as it stands on the wire
+					}
+				}
+				ok, w := p.verbatimText(f, d.Rhs, func(e ast.Expr) bool {
+					id, isID := unparen(e).(*ast.Ident)
+					return isID && p.ObjOf(id) == obj
+				}, 0)
+				if !ok {
+					okAll, why = false, w
+				}
+			}
+			r.Check(okAll && n >= 1, "UnmarshalCandidate keeps the address token verbatim", p.Pos(f.Body.Pos()), "token through substring operations only", "the parsed address is "+why+": Address() of the parsed candidate differs from the text that was marshalled")
+		}
+	}
+	if f := p.Fn("readCandidateStringToken"); r.Anchor("readCandidateStringToken", f != nil) {
+		okAll, n := true, 0
+		walkBody(f, func(nd ast.Node) bool {
+			if rs, ok := nd.(*ast.ReturnStmt); ok && len(rs.Results) == 2 {
+				n++
+				ok, _ := p.verbatimText(f, rs.Results[0], func(e ast.Expr) bool {
+					id, isID := unparen(e).(*ast.Ident)
+					return isID && p.ObjOf(id) == p.paramObj(f, 0)
+				}, 0)
+				if !ok {
+					okAll = false
+				}
+			}
+			return true
+		})
+		r.Check(okAll && n > 0, "readCandidateStringToken returns a slice of the input", p.Pos(f.Body.Pos()), "raw[a:b]", "the tokenizer re-renders the token")
+	}
+}
+
+// verbatimText: e derives from a source (accepted by isSrc) only by substring
+// operations: slicing, strings.Cut/Trim*/TrimSpace, or a call to an analysed
+// func(string) string all of whose returns are substrings of its parameter.
+func (p *Prog) verbatimText(f *Func, e ast.Expr, isSrc func(ast.Expr) bool, depth int) (bool, string) {
+	e = unparen(e)
+	if isSrc(e) {
+		return true, ""
+	}
+	if depth > 5 {
+		return false, "too deeply derived"
+	}
+	switch x := e.(type) {
+	case *ast.SliceExpr:
+		return p.verbatimText(f, x.X, isSrc, depth+1)
+	case *ast.Ident:
+		if d, ok := p.reachingDef(f, x, p.ObjOf(x)); ok && d.Rhs != nil {
+			if c, isC := unparen(d.Rhs).(*ast.CallExpr); isC && d.Index <= 1 && p.CalleeName(c) == "strings.Cut" {
+				return p.verbatimText(f, c.Args[0], isSrc, depth+1)
+			}
+			if d.Index == 0 {
+				return p.verbatimText(f, d.Rhs, isSrc, depth+1)
+			}
+		}
+		if d, ok := p.SingleDef(f, p.ObjOf(x)); ok && d.Rhs != nil {
+			if c, isC := unparen(d.Rhs).(*ast.CallExpr); isC && d.Index <= 1 && p.CalleeName(c) == "strings.Cut" {
+				return p.verbatimText(f, c.Args[0], isSrc, depth+1)
+			}
+			if d.Index == 0 {
+				return p.verbatimText(f, d.Rhs, isSrc, depth+1)
+			}
+		}
+		return false, "defined by something other than a substring of the address (" + stripVarLines(p.Canon(e)) + ")"
+	case *ast.CallExpr:
+		name := p.CalleeName(x)
+		switch name {
+		case "strings.TrimSpace", "strings.TrimPrefix", "strings.TrimSuffix", "strings.Trim", "strings.TrimLeft", "strings.TrimRight":
+			return p.verbatimText(f, x.Args[0], isSrc, depth+1)
+		}
+		if callee := p.Callee(x); callee != nil && len(x.Args) == 1 {
+			if g := p.ByObj[callee]; g != nil && g.Body != nil {
+				par := p.paramObj(g, 0)
+				okAll, why, n := true, "", 0
+				walkBody(g, func(nd ast.Node) bool {
+					if rs, ok := nd.(*ast.ReturnStmt); ok && len(rs.Results) == 1 {
+						n++
+						ok, w := p.verbatimText(g, rs.Results[0], func(y ast.Expr) bool {
+							id, isID := unparen(y).(*ast.Ident)
+							return isID && p.ObjOf(id) == par
+						}, depth+1)
+						if !ok {
+							okAll, why = false, w
+						}
+					}
+					return true
+				})
+				if !okAll || n == 0 {
+					return false, "passed through " + name + ", which returns text " + why
+				}
+				return p.verbatimText(f, x.Args[0], isSrc, depth+1)
+			}
+		}
+		return false, "re-rendered by " + name
+	}
+	return false, "computed by " + stripVarLines(p.Canon(e))
 }
 
 func conjuncts(e ast.Expr) []ast.Expr {
